@@ -11,6 +11,20 @@ import (
 var Strs = []string{"", "a", "hello", "<&>", " x", "\x00", "\"q\"", "back\\slash", "é", "日本", "\xff\xfe", "tab\t", "nl\n", "12", "true", "null", "-5", "1.5",
 	"abcdefghijklmnopq", "\x7f", "é\x80", " x", " ", "😀", "\x1f", "a\bb\fc\rd", "</script>", "\xed\xa0\x80", "0123456789abcdef0123456789abcdef", "key"}
 
+// Edge strings: the first and last code point of every UTF-8 length class and of every range a
+// validator's tables distinguish (E0/ED/F0/F4 second-byte ranges, the surrogate gap, U+2028/9), the
+// supplementary code points whose UTF-16 halves sit at the ends of their ranges, and one ill-formed
+// sequence just outside each of those ranges.
+func init() {
+	for _, r := range []rune{0x7f, 0x80, 0x7ff, 0x800, 0xfff, 0x1000, 0xcfff, 0xd000, 0xd7ff, 0xe000, 0xfffd, 0xffff, 0x2027, 0x2028, 0x2029, 0x202a,
+		0x10000, 0x103ff, 0x1f400, 0x3ffff, 0x40000, 0xfffff, 0x100000, 0x10fc00, 0x10ffff} {
+		Strs = append(Strs, string(r), "a"+string(r)+"b")
+	}
+	Strs = append(Strs, "\xc0\x80", "\xc1\xbf", "\xc2", "\xdf", "\xe0\x80\x80", "\xe0\x9f\xbf", "\xe0\xa0", "\xed\x9f", "\xed\xbf\xbf",
+		"\xee\x80", "\xf0\x80\x80\x80", "\xf0\x8f\xbf\xbf", "\xf0\x90\x80", "\xf4\x8f\xbf", "\xf4\x90\x80\x80", "\xf4\xbf\xbf\xbf", "\xf5\x80\x80\x80",
+		"\xf8\x88\x80\x80\x80", "\xe2\x82", "\xf0\x9f\x98", "\x80", "\xbf", "\xfe", "x\xf4\x90\x80\x80y", "x\xed\xa0\x80y")
+}
+
 var I64s = []int64{0, 1, -1, 9, 10, 11, 99, 100, 101, 127, 128, -128, -129, 255, 256, 999, 1000, 9999, 10000, 32767, 32768, -32768, -32769, 65535, 65536,
 	99999, 100000, math.MaxInt32, math.MinInt32, math.MaxInt32 + 1, math.MaxUint32, math.MaxUint32 + 1, math.MaxInt64, math.MinInt64, math.MaxInt64 - 1, math.MinInt64 + 1,
 	1e15, 1e18, 999999999999999999, 1000000000000000000, 12345, -12345, 1234567890123456789}
